@@ -1,6 +1,7 @@
 /- Driver glue for the `url` suite. -/
 import Jsonapi.Driver.Marshal
 import Jsonapi.Model.Url
+import Jsonapi.Spec.Url
 namespace Jsonapi.Driver
 open Jsonapi
 
@@ -35,6 +36,10 @@ def stepUrl (args : List Sx) : String × String × Bool :=
       | .ok u => "ok " ++ (encURL u).toStr ++ " " ++ (Sx.ofBytes (u.string { labelBody := lb.bytes! })).toStr
       | .err => "err"
       | .panic => "panic", "-", true)
+  | [.atom "reparse", str] =>
+    (match Spec.parseRaw str.bytes! with
+      | some (p, vs) => (Sx.list [Sx.ofBytes p, .list ((sortByKey vs).map (fun e => .list [Sx.ofBytes e.1, Sx.ofStrs e.2]))]).toStr
+      | none => "none", "-", true)
   | _ => ("bad-op", "-", false)
 
 end Jsonapi.Driver
